@@ -338,7 +338,7 @@ def run(tier, seed, replay=None):
             exprs.append(e)
             idx.append((i, cls))
     try:
-        verdicts = cm.coq_eval_lines(PID, nb.COQ_HEADER, exprs, tag="cert", per_file=12, timeout=1500)
+        verdicts = cm.coq_eval_lines(PID, nb.COQ_HEADER, exprs, tag="cert", per_file=20, timeout=1500)
     except RuntimeError as e:
         R.proof_broken.append(f"certificate evaluation failed: {str(e)[:400]}")
         verdicts = []
